@@ -55,6 +55,7 @@ out = ["",
        "byte-for-byte comparison) and asked for changes such a tester could still miss.",
        "Each change was re-confirmed by `tools/verify_mutant.sh` in a fresh worktree (patch applies, suite passes",
        "with it, the demonstration fails with it and passes without) before being kept under `seeded/<id>/`.",
+       "Rounds 5-8 were fully adversarial, round 9 realistic again (both described below).",
        "Five more are the reverse patches of the `fix:` commits. A further group of sub-agents wrote 15 *harmless",
        "rewrites* (behaviour-preserving refactorings of every part of the crate, each validated by its author with",
        "a differential test of 10^5 calls) to probe for false alarms.",
@@ -150,6 +151,29 @@ out = ["",
        "  two thirds of fresh changes past the quick tier *as it stands at that moment*, every one of them is",
        "  caught after one more family is added, and the families keep getting cheaper to think of (pairs of",
        "  special values) but can never be complete over unstructured 2^k domains.",
+       "* Round 8 (6 agents, 18 changes, fully adversarial with the tester description of round 7): 12 of 18 caught",
+       "  as the checks stood. The six misses were of one kind: behaviour gated on a conjunction of constants *inside",
+       "  an opaque payload or argument* (an SPDM body that looks like NEGOTIATE_ALGORITHMS with a wrong length field,",
+       "  a GET_VERSION body, a VERSION response with a scratch tail, the DMTF's PCI vendor ID used as an IANA",
+       "  number, an Allocate request with operation 2 and a short payload, a peer's UUID response equal to the",
+       "  context's own UUID and EID). No hand-written family reaches such gates except by luck, so instead of one",
+       "  more family two *source-derived* search stages were added (section 3.3d): literals that are new in the",
+       "  source are planted into the cases, and a coverage- and comparison-guided libFuzzer run over the operation",
+       "  language looks for inputs that reach new code; both only propose cases, the model and the specification",
+       "  judge them. With them 16 of 18 are caught by the quick tier (R8-3-2, R8-4-2, R8-4-3, R8-5-1 newly). Not",
+       "  caught in 60 s of search: R8-3-3 (needs >= 32 body bytes with four constrained positions) and R8-4-1 (an",
+       "  exact 4-byte SPDM body) - recorded as misses; they are the residue the differential tie cannot promise.",
+       "* Round 9 went back to what the checks are for: 6 fresh agents, given only the property texts (no",
+       "  description of the tester, no list of earlier changes) and asked for *realistic* slips - a wrong mask, an",
+       "  off-by-one bound, a check moved or merged, state consulted in one place, a table rebuilt by a loop - that",
+       "  need something specific to manifest; 21 changes, one per property plus a second for C18 and C19. All 21",
+       "  are caught by the quick check of the property they target, each with a concrete failing input as replay",
+       "  (among them a PEC that skips the R/W bit of byte 0, a lookup-table CRC whose last entry is never filled,",
+       "  an oversize check that forgets the optional header, a validator whose two conditions were merged with the",
+       "  wrong connective, a selector advanced from the stored cell instead of the request, a 30-type limit that",
+       "  became 29). Three of them are also seen statically by the translator tie of section 3.3c (`Tie.msg_from`",
+       "  for the masked message-type conversion, `Tie.pci_format_fields` for the dropped `MSB0`, and - reported as",
+       "  'not translated', without alarm - the command table rebuilt as an array lookup).",
        "* An independent reading audit of the model against the Rust source (a sub-agent, reading every non-test",
        "  function against its Lean definition and running 75 000 lines of its own through both sides) found no",
        "  input on which they disagree on return value, panic kind or file, EIDs, or bytes written on success,",
